@@ -1,11 +1,11 @@
 """C03 - runs are reproducible and unaffected by where they are stopped and resumed."""
 import hashlib, json, os, subprocess, sys, random
-from harness import kprops, kgen, kscript
+from harness import kprops, kgen, kscript, koracle
 from vlib.util import VERIF, REPO
 ASSUMPTIONS = ['"observable trace" = what process bodies and probe callbacks see (env.now, values, exceptions, order)',
                'hash-seed independence is sampled (fresh interpreters with several PYTHONHASHSEED values), not a theorem',
                'run(until=event) for an event that fails re-raises its exception after all of its waiters have run (repaired in /repo)']
-SPEC = [(3, 'plan:time'), (3, 'plan:outcome'), (2, 'plan:cond'), (2, 'plan:intr'), (2, 'plan:res'), (2, 'plan:store'), (1, 'untilfail')]
+SPEC = [(3, 'plan:time'), (3, 'plan:outcome'), (2, 'plan:cond'), (2, 'plan:intr'), (2, 'plan:res'), (2, 'plan:store'), (1, 'untilfail'), (1, 'untilreact')]
 
 CHILD = r'''
 import sys, json, hashlib
@@ -27,7 +27,7 @@ def digests_in_fresh_interpreter(cases, hashseed):
     return json.loads(r.stdout)
 
 def run(ctx):
-    res = kprops.run_kernel(ctx, 'C03', SPEC, 1200, 30000, oracles=[kprops.oracle_split])
+    res = kprops.run_kernel(ctx, 'C03', SPEC, 1200, 30000, oracles=[kprops.oracle_split, koracle.oracle_until_event_return])
     # reproducibility: same program, same and other interpreter processes, several hash seeds
     rng = random.Random(f'C03-hash-{ctx.seed}')
     cases = kprops.gen_cases(rng, SPEC + [(2, 'res'), (2, 'store'), (2, 'cond')], 150 if ctx.quick else 1500)
